@@ -115,6 +115,29 @@ func vfLoadKeys() map[string]*vfKey {
 	return out
 }
 
+// vfFreshPk builds a new public-key object with the values of k's key: an object no library function
+// has touched yet (whatever a function caches inside the key on first use is not there).
+func vfFreshPk(k *vfKey) *gabikeys.PublicKey {
+	o := k.Pk
+	R := make([]*big.Int, len(o.R))
+	for i := range R {
+		R[i] = new(big.Int).Set(o.R[i])
+	}
+	cp := func(v *big.Int) *big.Int {
+		if v == nil {
+			return nil
+		}
+		return new(big.Int).Set(v)
+	}
+	pk, err := gabikeys.NewPublicKey(cp(o.N), cp(o.Z), cp(o.S), cp(o.G), cp(o.H), R, o.ECDSAString, o.Counter, time.Unix(o.ExpiryDate, 0))
+	if err != nil {
+		panic(err)
+	}
+	pk.Params = o.Params
+	pk.Issuer = o.Issuer
+	return pk
+}
+
 // vfKeyID is the identifier under which protocols (keyshare) know a key: issuer name and counter.
 func vfKeyID(pk *gabikeys.PublicKey) string { return fmt.Sprintf("%s-%d", pk.Issuer, pk.Counter) }
 
